@@ -13,8 +13,9 @@ def load_claimed():
     sys.path.insert(0, os.path.join(VERIF, "lib"))
     sys.path.insert(0, os.path.join(VERIF, "checks"))
     res = {}
+    enabled = set(open(os.path.join(VERIF, "checks", "ENABLED")).read().split())
     for fn in sorted(os.listdir(os.path.join(VERIF, "checks"))):
-        if fn.startswith("C") and fn.endswith(".py"):
+        if fn.startswith("C") and fn.endswith(".py") and fn[:-3] in enabled:
             mod = importlib.import_module(fn[:-3])
             if getattr(mod, "META", None) and not getattr(mod, "DISABLED", False):
                 res[fn[:-3]] = mod.META
